@@ -362,7 +362,7 @@ def drive(ctx, sched, mon, P, passes_requested, opts):
 
     # ---- after the last permitted calculation ----------------------------
     if permitted != INF and (ctx.is_fatal("C02.after_end") or ctx.is_fatal("C09.stop_persists")):
-        for k in range(3):
+        for k in range(opts.get("extra_next", 6)):
             try:
                 extra = next(sched)
             except StopIteration:
